@@ -381,7 +381,7 @@ def main(tier: str, seed: int):
         for e in types:
             for _ in range(reps if s != "boot-garbage" else max(reps, 5)):
                 plan.append(([s], e))
-    for _ in range(40 if tier == "quick" else 3000):
+    for _ in range(40 if tier == "quick" else 10000):
         plan.append((None, None))
     rng.shuffle(plan)
     nj = par.NWORK
